@@ -80,6 +80,10 @@ pub struct CosCase {
     #[serde(default)]
     pub generichide_dom: Vec<(Option<String>, String, bool)>,
     pub pages: Vec<Page>,
+    /// indices of rules written with whitespace between the `##` / `#@#` marker and the selector
+    /// (legal; the selector is what follows, trimmed)
+    #[serde(default)]
+    pub spaced: Vec<usize>,
 }
 
 impl Case for CosCase {
@@ -194,7 +198,22 @@ fn action_json(b: &Body) -> Option<Value> {
 }
 
 pub fn check_case(c: &CosCase, obs: &mut Obs) -> Result<(), String> {
-    let mut lines: Vec<String> = c.rules.iter().map(|r| r.line()).collect();
+    let mut lines: Vec<String> = c
+        .rules
+        .iter()
+        .enumerate()
+        .map(|(i, r)| {
+            let l = r.line();
+            if c.spaced.contains(&i) && !matches!(r.body, Body::Script(..) | Body::BlanketScript) {
+                if r.unhide { l.replacen("#@#", "#@# ", 1) } else { l.replacen("##", if i % 2 == 0 { "## " } else { "##\t " }, 1) }
+            } else {
+                l
+            }
+        })
+        .collect();
+    if !c.spaced.is_empty() {
+        obs.label("space-after-marker");
+    }
     for h in &c.generichide {
         lines.push(format!("@@||{}^$generichide", h));
     }
@@ -454,7 +473,8 @@ fn decode(t: &mut Tape) -> CosCase {
         };
         generichide_dom.push((h, d, t.chance(1, 3)));
     }
-    CosCase { rules, generichide, generichide_dom, pages }
+    let spaced: Vec<usize> = (0..rules.len()).filter(|_| t.chance(1, 10)).collect();
+    CosCase { rules, generichide, generichide_dom, pages, spaced }
 }
 
 pub fn check(ctx: &mut Ctx) {
